@@ -53,6 +53,16 @@ NEEDS = {
  "c14-z": ("one module-level ANTLR error strategy shared by all parsers: `errorRecoveryMode` survives a rejected parse", "a parser-level reject immediately followed (any thread) by an input whose syntax error is at token 0: it is accepted"),
  "c12-m": ("canonicalize refines partitions in place on the caller's graph and restores them at the end, no try/finally", "an interrupt inside canonicalize: the argument keeps intermediate partition values"),
  "c16-l": ("private RNG with a cache of first shuffles keyed by `round(seed, 9)`", "two seeds equal to 9 decimals on molecules with the same labels"),
+ "c14-aa": ("canonicalize refines partitions in place on the caller's graph (one copy per call instead of one per step)", "two threads canonicalizing THE SAME graph object, a molecule whose refinement splits classes, a switch between one thread's reset and the other's read-out"),
+ "c14-ab": ("`calc_coordinates=True` layout kept for 2 s of `time.monotonic`, keyed by `id(graph)` plus node set", "two writes with calculated coordinates < 2 s apart; the second graph sits at the address of the freed first one (same labels) or is the same object edited in place"),
+ "c14-ac": ("`graph_from_file` text cache per path; the (mtime, size) signature is stored before the file is opened", "a read of a path that fails with an OS error after `stat()` succeeded, then a retry of the same unchanged path"),
+ "c12-n": ("canonicalize 'unifies' optional attributes: `rad`/`mass` equal to 0 are deleted from the result", "an atom with `RAD=0` or `MASS=0` stored explicitly"),
+ "c12-o": ("shared relabel helper returns `m` itself when the mapping is the identity; canonicalize pre-sorts with it and then partitions in place", "atoms already in sort order (hydrogens first: HCl, NH3 as H,H,H,N): the caller's `partition` values are overwritten, for HCl the result is the argument"),
+ "c16-m": ("label-ordered rebuild uses the argument's node list instead of sorting", "argument whose insertion order differs from its label order (canonicalized graph)"),
+ "c14-ad": ("writer parks the calculated layout in the node attributes of the caller's graph while formatting, restores in `finally`", "two threads writing THE SAME graph object, one with `calc_coordinates=True`, a switch between swap and restore"),
+ "c14-ae": ("`lru_cache` of the lexer + token stream per input string, rewound with `seek(0)`", "the same string parsed twice, rejected at the lexer stage after the lexer had consumed part of a possible token (`X` not followed by `e`, `mas`, ...)"),
+ "c12-p": ("`_assign_final_labels` returns `m` itself when every class is a singleton; `sort_molecule_by_attribute(copy=False)` then relabels in place", "a canonical graph with no two equivalent atoms whose atomic-number sort is not the identity (formic acid), kept by the caller after `serialize`"),
+ "c16-n": ("as c16-j (independent rediscovery)", "as c16-j"),
 }
 print("| seeded change | what it does | needs in order to manifest | tests / demo | reported by (quick tier, VERIF_SEED=1) |")
 print("|---|---|---|---|---|")
